@@ -1426,6 +1426,49 @@ pub fn gen(rng: &mut Rng, tier: &str, out: &mut Vec<String>) {
     out.extend(fixed(d16b, vec![LOp::Full, LOp::Dec(208), LOp::Sweep(0, 4095, 1)]));
     let d16c = LeakySpec { sym: "i8", b: 16, p: 12, min: -128, max: 127, base: Base::Gauss(0.0, 60.0), hint: HintMode::ConstF(-128.0) };
     out.extend(fixed(d16c, vec![LOp::Full, LOp::Dec(3881), LOp::Sweep(0, 4095, 1)]));
+    // directed invalid-argument classes: the model answers `rejected` for the invalid ones, so an
+    // acceptance by the implementation is flagged by the correspondence directly
+    for _ in 0..k {
+        for is32 in [true, false] {
+            let f = if is32 { "f32" } else { "f64" };
+            for cls in 0..N_DIRECTED {
+                let mut idx = 0usize;
+                for (b, ps) in FP_BP {
+                    for p in ps.iter() {
+                        let (v, norm, _, _) = directed_case(rng, cls, is32);
+                        let tbl = show_list(to_bits_list(&v, is32));
+                        let tok = norm_token(norm, is32);
+                        let ctor = ["cont", "ncenc", "ncdec"][idx % 3];
+                        idx += 1;
+                        out.push(format!("quant.fast {} {} {:x} {:x} {} {}", ctor, f, b, p, tok, tbl));
+                        let qmax = if *p == *b { pow2(*b).wrapping_sub(1) } else { pow2(*p) - 1 };
+                        let stride = (qmax / 1023).max(1);
+                        out.push(format!(
+                            "quant.lazy {} {:x} {:x} {} {} | table | dec 0 | dec 1 | dec {:x} | dec {:x} | sweep 0 {:x} {:x}",
+                            f, b, p, tok, tbl, qmax / 2, qmax, qmax, stride
+                        ));
+                    }
+                }
+                for (b, ps) in LOOKUP_BP {
+                    for p in ps.iter() {
+                        let (v, norm, _, _) = directed_case(rng, cls, is32);
+                        let tbl = show_list(to_bits_list(&v, is32));
+                        let ctor = if idx % 2 == 0 { "lkc" } else { "lknc" };
+                        idx += 1;
+                        out.push(format!("quant.fast {} {} {:x} {:x} {} {}", ctor, f, b, p, norm_token(norm, is32), tbl));
+                    }
+                }
+                for (b, ps) in PERFECT_BP {
+                    for p in ps.iter() {
+                        let (v, _, _, _) = directed_case(rng, cls, is32);
+                        let tblv = to_bits_list(&v, is32);
+                        let w = guarded(|| dispatch_perfect_weights(f, *b, *p, &tblv)).ok().flatten().flatten().unwrap_or_default();
+                        out.push(format!("quant.perfect {} {:x} {:x} {} {}", f, b, p, show_list(tblv), show_list(w)));
+                    }
+                }
+            }
+        }
+    }
     for _ in 0..3000 * k {
         out.push(gen_fast_line(rng));
     }
@@ -1503,7 +1546,264 @@ fn has_invalid_entry<F: Fl>(probs: &[F]) -> bool {
     probs.iter().any(|p| !(*p >= F::zero()))
 }
 
-/// C03 / C05 / C09 / C19 / C20 for the `…_fast` constructors: eager vs lazy vs non-contiguous
+/// directed invalid-argument classes for the float constructors.  Returns the table (as `f64`
+/// values, converted to the target float type by the caller), the normalisation, the class
+/// name, and whether the documentation lists the argument as an error ("must reject").
+pub const N_DIRECTED: usize = 18;
+pub fn directed_case(rng: &mut Rng, k: usize, is32: bool) -> (Vec<f64>, Option<f64>, &'static str, bool) {
+    let unit = |r: &mut Rng| (r.next() >> 11) as f64 / (1u64 << 53) as f64;
+    let n = 2 + (rng.next() % 6) as usize;
+    let good: Vec<f64> = (0..n).map(|i| if i == 1 && rng.chance(1, 3) { 0.0 } else { 0.25 + 100.0 * unit(rng) }).collect();
+    let (fmax, fmin, sub) = if is32 { (f32::MAX as f64, f32::MIN_POSITIVE as f64, 1e-40) } else { (f64::MAX, f64::MIN_POSITIVE, 1e-310) };
+    let big = if is32 { 3e38 } else { 1.7e308 };
+    match k {
+        0 => (good, Some(f64::INFINITY), "norm=+inf", true),
+        1 => (good, Some(f64::NEG_INFINITY), "norm=-inf", true),
+        2 => (good, Some(f64::NAN), "norm=NaN", true),
+        3 => (good, Some(0.0), "norm=0", true),
+        4 => (good, Some(-0.0), "norm=-0", true),
+        5 => (good.clone(), Some(-good.iter().sum::<f64>()), "norm<0", true),
+        6 => (good, Some(sub), "norm=subnormal", false),
+        7 => (good, Some(fmax), "norm=MAX", false),
+        8 => (good, Some(fmin), "norm=tiny-normal", false),
+        9 => (vec![big, big, 1.0, 2.0], None, "sum-overflows", true),
+        10 => (vec![f64::INFINITY, 1.0, 1.0], None, "inf-entry", true),
+        11 => (vec![0.0; n], None, "all-zero", true),
+        12 => (vec![sub / 4.0, sub / 4.0, 0.0, sub / 8.0], None, "sum=subnormal", false),
+        13 => (vec![1.0, f64::INFINITY, 1.0], Some(2.0), "inf-entry+norm", false),
+        14 => (vec![1.0, f64::NAN, 1.0], None, "NaN-entry", true),
+        15 => (vec![1.0, -0.5, 1.0], Some(1.5), "negative-entry+norm", true),
+        16 => (vec![big, big, 1.0, 2.0], Some(fmax), "sum-overflows+norm=MAX", false),
+        _ => (vec![0.25, 0.25, 0.5], Some(f64::INFINITY), "lead-trigger norm=+inf", true),
+    }
+}
+
+fn norm_token(norm: Option<f64>, is32: bool) -> String {
+    match norm {
+        None => "-".into(),
+        Some(x) => {
+            if is32 {
+                format!("{:x}", (x as f32).to_bits())
+            } else {
+                format!("{:x}", x.to_bits())
+            }
+        }
+    }
+}
+
+/// C03-validity of BOTH views of one accepted model: the encoder view must tile `[0, 2^P)` with
+/// `n` non-empty proper bins, and the decoder must return, for every (sampled) quantile, exactly
+/// the encoder's bin.  `enc` / `table` / `dec` = whatever views the representation offers.
+fn views_check(
+    p: u32,
+    n: usize,
+    enc: Option<&dyn Fn(usize) -> Option<(u128, u128)>>,
+    table: Option<Vec<Triple>>,
+    dec: Option<&dyn Fn(u128) -> Triple>,
+    rng: &mut Rng,
+) -> Result<(Vec<Triple>, u64), String> {
+    let mut evals = 0u64;
+    let enc_table: Option<Vec<Triple>> = match enc {
+        None => None,
+        Some(e) => {
+            let mut t = Vec::with_capacity(n);
+            for s in 0..n {
+                match e(s) {
+                    None => return Err(format!("symbol {} inside the support has no probability", s)),
+                    Some((c, pr)) => t.push((s as u128, c, pr)),
+                }
+            }
+            Some(t)
+        }
+    };
+    if let (Some(a), Some(b)) = (&enc_table, &table) {
+        if a != b {
+            return Err("symbol_table() and left_cumulative_and_probability disagree".into());
+        }
+    }
+    let t = enc_table.or(table).ok_or_else(|| "no view".to_string())?;
+    evals += t.len() as u64;
+    if t.len() != n || !table_valid(p, &t) {
+        return Err(format!("encoder view is not a tiling of [0, 2^P) by {} non-empty proper bins: {}", n, show_triples(&t[..t.len().min(8)])));
+    }
+    if let Some(d) = dec {
+        for q in quantiles_for(rng, p, &t, 400) {
+            evals += 1;
+            let got = d(q);
+            if Some(got) != table_find(&t, q) {
+                return Err(format!(
+                    "decoder and encoder disagree: quantile_function({:x}) = {:x}:{:x}:{:x} but the encoder view has {:?}",
+                    q,
+                    got.0,
+                    got.1,
+                    got.2,
+                    table_find(&t, q)
+                ));
+            }
+        }
+    }
+    Ok((t, evals))
+}
+
+/// outcome of one constructor kind on one input
+enum Outcome {
+    Rejected,
+    Accepted(Vec<Triple>),
+}
+
+fn report_ctor(
+    rep: &mut Report,
+    line: &str,
+    ctor: &str,
+    must_reject: Option<&str>,
+    r: Result<Result<Option<(Vec<Triple>, u64)>, String>, &'static str>,
+) -> Option<Outcome> {
+    rep.eval("C19");
+    rep.eval("C20");
+    match r {
+        Err(class) => {
+            rep.fail("C19", format!("{} => constructor or accepted model of `{}` panicked ({})", line, ctor, class));
+            None
+        }
+        Ok(Ok(None)) => {
+            rep.count(&format!("ctor.{}.rejected", ctor));
+            Some(Outcome::Rejected)
+        }
+        Ok(Ok(Some((t, evals)))) => {
+            rep.count(&format!("ctor.{}.accepted", ctor));
+            *rep.evals.entry("C03".into()).or_insert(0) += evals;
+            if let Some(class) = must_reject {
+                rep.fail("C19", format!("{} => accepted by `{}` although the documentation lists this argument as an error ({})", line, ctor, class));
+            }
+            Some(Outcome::Accepted(t))
+        }
+        Ok(Err(what)) => {
+            rep.count(&format!("ctor.{}.accepted", ctor));
+            rep.fail("C19", format!("{} => accepted by `{}` but {}", line, ctor, what));
+            rep.fail("C03", format!("{} => `{}`: {}", line, ctor, what));
+            None
+        }
+    }
+}
+
+/// C19 / C03 / C05 / C09 / C20 for the `…_fast` constructor kinds (eager, lazy, non-contiguous
+/// encoder and decoder) on one input.  For every ACCEPTED model both views are validated first.
+fn check_fast_ctors<F, Pr, const P: usize>(tbl: &[u128], norm: Option<u128>, norm_tok: &str, must_reject: Option<&str>, rng: &mut Rng, rep: &mut Report)
+where
+    F: Fl + AsPrimitive<Pr>,
+    Pr: BitArray + AsPrimitive<usize> + AsPrimitive<F>,
+    usize: AsPrimitive<Pr> + AsPrimitive<F>,
+{
+    let probs: Vec<F> = tbl.iter().map(|&b| F::from_bits_u(b)).collect();
+    let normf = norm.map(F::from_bits_u);
+    let n = probs.len();
+    let p = P as u32;
+    let line = |ctor: &str| format!("quant.fast {} {} {:x} {:x} {} {}", ctor, F::NAME, Pr::BITS, P, norm_tok, show_list(tbl.to_vec()));
+    let lazy_line = format!("quant.lazy {} {:x} {:x} {} {} | table | sweep 0 {:x} {:x}", F::NAME, Pr::BITS, P, norm_tok, show_list(tbl.to_vec()), pow2(p) - 1, (pow2(p) / 4096).max(1));
+    rep.count(&format!("fast.{}.B{}.P{}", F::NAME, Pr::BITS, P));
+    let tr = |x: (usize, Pr, Pr::NonZero)| -> Triple { (x.0 as u128, to_u128(x.1), to_u128(x.2.get())) };
+    let cp = |x: Option<(Pr, Pr::NonZero)>| -> Option<(u128, u128)> { x.map(|(c, p)| (to_u128(c), to_u128(p.get()))) };
+
+    // eager contiguous
+    let mut r1 = rng.fork();
+    let eager = report_ctor(rep, &line("cont"), "cont", must_reject, guarded(|| {
+        match ContiguousCategoricalEntropyModel::<Pr, Vec<Pr>, P>::from_floating_point_probabilities_fast(&probs, normf) {
+            Err(()) => Ok(None),
+            Ok(m) => {
+                let table: Vec<Triple> = m.symbol_table().map(tr).collect();
+                let enc = |s: usize| cp(m.left_cumulative_and_probability(s));
+                let dec = |q: u128| tr(m.quantile_function(from_u128(q)));
+                let r = views_check(p, n, Some(&enc), Some(table), Some(&dec), &mut r1)?;
+                for s in [n, n + 1, 0xffff, 0x1_0001, 0xffff_ffff, 0x1_0000_0003, usize::MAX] {
+                    if s >= n && m.left_cumulative_and_probability(s).is_some() {
+                        return Err(format!("out-of-support symbol {:x} accepted", s));
+                    }
+                }
+                Ok(Some(r))
+            }
+        }
+    }));
+    // lazy
+    let mut r2 = rng.fork();
+    let lazy = report_ctor(rep, &lazy_line, "lazy", must_reject, guarded(|| {
+        match LazyContiguousCategoricalEntropyModel::<Pr, F, _, P>::from_floating_point_probabilities_fast(&probs[..], normf) {
+            Err(()) => Ok(None),
+            Ok(m) => {
+                let enc = |s: usize| cp(m.left_cumulative_and_probability(s));
+                let dec = |q: u128| tr(m.quantile_function(from_u128(q)));
+                let r = views_check(p, n, Some(&enc), None, Some(&dec), &mut r2)?;
+                for s in [n, n + 1, 0xffff, 0x1_0001, 0xffff_ffff, 0x1_0000_0003, usize::MAX] {
+                    if s >= n && m.left_cumulative_and_probability(s).is_some() {
+                        return Err(format!("out-of-support symbol {:x} accepted", s));
+                    }
+                }
+                Ok(Some(r))
+            }
+        }
+    }));
+    // non-contiguous encoder
+    let mut r3 = rng.fork();
+    let ncenc = report_ctor(rep, &line("ncenc"), "ncenc", must_reject, guarded(|| {
+        match NonContiguousCategoricalEncoderModel::<usize, Pr, P>::from_symbols_and_floating_point_probabilities_fast(0..n, &probs, normf) {
+            Err(()) => Ok(None),
+            Ok(m) => {
+                let enc = |s: usize| cp(m.left_cumulative_and_probability(s));
+                let r = views_check(p, n, Some(&enc), None, None, &mut r3)?;
+                if m.left_cumulative_and_probability(n).is_some() || m.left_cumulative_and_probability(usize::MAX).is_some() {
+                    return Err("out-of-support symbol accepted".into());
+                }
+                Ok(Some(r))
+            }
+        }
+    }));
+    // non-contiguous decoder
+    let mut r4 = rng.fork();
+    let ncdec = report_ctor(rep, &line("ncdec"), "ncdec", must_reject, guarded(|| {
+        match NonContiguousCategoricalDecoderModel::<usize, Pr, Vec<(Pr, usize)>, P>::from_symbols_and_floating_point_probabilities_fast(0..n, &probs, normf) {
+            Err(()) => Ok(None),
+            Ok(m) => {
+                let table: Vec<Triple> = m.symbol_table().map(tr).collect();
+                let dec = |q: u128| tr(m.quantile_function(from_u128(q)));
+                Ok(Some(views_check(p, n, None, Some(table), Some(&dec), &mut r4)?))
+            }
+        }
+    }));
+    for _ in 0..n.min(64) {
+        rep.eval("C09");
+    }
+    // C05: all representations agree on acceptance and on the table
+    let outs = [("cont", eager), ("lazy", lazy), ("ncenc", ncenc), ("ncdec", ncdec)];
+    let mut reference: Option<(&str, Option<&Vec<Triple>>)> = None;
+    for (name, o) in outs.iter() {
+        let cur: Option<&Vec<Triple>> = match o {
+            None => continue, // already reported
+            Some(Outcome::Rejected) => None,
+            Some(Outcome::Accepted(t)) => Some(t),
+        };
+        rep.eval("C05");
+        match &reference {
+            None => reference = Some((name, cur)),
+            Some((rname, rcur)) => {
+                if *rcur != cur {
+                    let what = if rcur.is_some() != cur.is_some() { "disagree on acceptance" } else { "build different models" };
+                    rep.fail("C05", format!("{} => `{}` and `{}` {}", line(name), rname, name, what));
+                    if rcur.is_some() != cur.is_some() {
+                        rep.fail("C19", format!("{} => `{}` and `{}` disagree on acceptance", line(name), rname, name));
+                    }
+                }
+            }
+        }
+    }
+    // accepted ⇒ documented preconditions (D14)
+    if let Some((_, Some(_))) = reference {
+        if has_invalid_entry(&probs) || n < 2 {
+            rep.fail("C19", format!("{} => accepted a table with a negative/NaN entry or fewer than 2 entries", line("cont")));
+        }
+        rep.sample("C03", || line("cont"));
+    }
+}
+
+/// random inputs
 fn oracle_fast_one<F, Pr, const P: usize>(rng: &mut Rng, rep: &mut Report)
 where
     F: Fl + AsPrimitive<Pr>,
@@ -1513,110 +1813,30 @@ where
     let is32 = F::NAME == "f32";
     let n = gen_len(rng, P as u32).min(400);
     let mut v = gen_weights(rng, n, is32);
-    let corrupted = corrupt(rng, &mut v);
+    if corrupt(rng, &mut v) {
+        rep.count("fast.corrupted");
+    }
     let tbl = to_bits_list(&v, is32);
     let norm_tok = gen_norm(rng, &v, is32);
     let norm: Option<u128> = if norm_tok == "-" { None } else { parse_hex(&norm_tok) };
-    let replay = format!("quant.fast cont {} {:x} {:x} {} {}", F::NAME, Pr::BITS, P, norm_tok, show_list(tbl.clone()));
-    let probs: Vec<F> = tbl.iter().map(|&b| F::from_bits_u(b)).collect();
-    let normf = norm.map(F::from_bits_u);
-    rep.count(&format!("fast.{}.B{}.P{}", F::NAME, Pr::BITS, P));
+    check_fast_ctors::<F, Pr, P>(&tbl, norm, &norm_tok, None, rng, rep);
+}
 
-    let res = guarded(|| {
-        let eager = ContiguousCategoricalEntropyModel::<Pr, Vec<Pr>, P>::from_floating_point_probabilities_fast(&probs, normf);
-        let lazy = LazyContiguousCategoricalEntropyModel::<Pr, F, _, P>::from_floating_point_probabilities_fast(&probs[..], normf);
-        let ncenc = NonContiguousCategoricalEncoderModel::<usize, Pr, P>::from_symbols_and_floating_point_probabilities_fast(0..n, &probs, normf);
-        let ncdec = NonContiguousCategoricalDecoderModel::<usize, Pr, Vec<(Pr, usize)>, P>::from_symbols_and_floating_point_probabilities_fast(0..n, &probs, normf);
-        let mut fails: Vec<(&'static str, String)> = Vec::new();
-        let mut evals: Vec<&'static str> = Vec::new();
-        evals.push("C19");
-        evals.push("C05");
-        let (eager, lazy, ncenc, ncdec) = match (eager, lazy, ncenc, ncdec) {
-            (Err(()), Err(()), Err(()), Err(())) => {
-                return (evals, fails, "rejected");
-            }
-            (Ok(a), Ok(b), Ok(c), Ok(d)) => (a, b, c, d),
-            _ => {
-                fails.push(("C05", "constructors disagree on acceptance".into()));
-                return (evals, fails, "mixed");
-            }
-        };
-        // C19: accepted ⇒ documented preconditions hold
-        if has_invalid_entry(&probs) || n < 2 {
-            fails.push(("C19", "accepted a table with a negative/NaN entry or fewer than 2 entries".into()));
-        }
-        // C03: valid table
-        let table: Vec<Triple> = eager.symbol_table().map(|(s, c, p)| (s as u128, to_u128(c), to_u128(p.get()))).collect();
-        evals.push("C03");
-        if !table_valid(P as u32, &table) || table.len() != n {
-            fails.push(("C03", "symbol table of the eager model is not a valid tiling".into()));
-            return (evals, fails, "accepted");
-        }
-        // C05: every representation gives the same (c, p) for every symbol; C09: none outside
-        for s in 0..n {
-            let want = Some((table[s].1, table[s].2));
-            let e = eager.left_cumulative_and_probability(s).map(|(c, p)| (to_u128(c), to_u128(p.get())));
-            let l = lazy.left_cumulative_and_probability(s).map(|(c, p)| (to_u128(c), to_u128(p.get())));
-            let ne = ncenc.left_cumulative_and_probability(s).map(|(c, p)| (to_u128(c), to_u128(p.get())));
-            evals.push("C05");
-            if e != want || l != want || ne != want {
-                fails.push(("C05", format!("enc({}) differs: eager {:?} lazy {:?} ncenc {:?} table {:?}", s, e, l, ne, want)));
-                break;
-            }
-        }
-        for s in [n, n + 1, 0xffff, 0x10000 + 1, 0xffff_ffff, 0x1_0000_0000 + 3, usize::MAX] {
-            if s >= n {
-                evals.push("C09");
-                if eager.left_cumulative_and_probability(s).is_some() || lazy.left_cumulative_and_probability(s).is_some() || ncenc.left_cumulative_and_probability(s).is_some() {
-                    fails.push(("C09", format!("out-of-support symbol {:x} accepted", s)));
-                }
-            }
-        }
-        let nd: Vec<Triple> = ncdec.symbol_table().map(|(s, c, p)| (s as u128, to_u128(c), to_u128(p.get()))).collect();
-        evals.push("C05");
-        if nd != table {
-            fails.push(("C05", "symbol table of the non-contiguous decoder differs".into()));
-        }
-        // C03 / C05: decoders invert the encoder on every (sampled) quantile
-        let mut r2 = rng.fork();
-        for q in quantiles_for(&mut r2, P as u32, &table, 600) {
-            let want = table_find(&table, q);
-            let qq: Pr = from_u128(q);
-            let (s1, c1, p1) = eager.quantile_function(qq);
-            let (s2, c2, p2) = lazy.quantile_function(qq);
-            let (s3, c3, p3) = ncdec.quantile_function(qq);
-            let got1 = Some((s1 as u128, to_u128(c1), to_u128(p1.get())));
-            let got2 = Some((s2 as u128, to_u128(c2), to_u128(p2.get())));
-            let got3 = Some((s3 as u128, to_u128(c3), to_u128(p3.get())));
-            evals.push("C03");
-            evals.push("C05");
-            if got1 != want || got2 != want || got3 != want {
-                fails.push(("C03", format!("dec({:x}): eager {:?} lazy {:?} ncdec {:?} want {:?}", q, got1, got2, got3, want)));
-                break;
-            }
-        }
-        (evals, fails, "accepted")
-    });
-    match res {
-        Ok((evals, fails, kind)) => {
-            rep.count(&format!("fast.{}", kind));
-            if corrupted {
-                rep.count(&format!("fast.corrupted.{}", kind));
-            }
-            for e in evals {
-                rep.eval(e);
-            }
-            rep.eval("C20");
-            for (prop, what) in fails {
-                rep.fail(prop, format!("{} # {}", replay, what));
-            }
-            rep.sample("C03", || replay.clone());
-        }
-        Err(class) => {
-            rep.eval("C20");
-            rep.eval("C19");
-            rep.fail("C19", format!("{} # {}", replay, class));
-        }
+/// directed invalid-argument classes
+fn oracle_directed_fast<F, Pr, const P: usize>(rng: &mut Rng, rep: &mut Report)
+where
+    F: Fl + AsPrimitive<Pr>,
+    Pr: BitArray + AsPrimitive<usize> + AsPrimitive<F>,
+    usize: AsPrimitive<Pr> + AsPrimitive<F>,
+{
+    let is32 = F::NAME == "f32";
+    for k in 0..N_DIRECTED {
+        let (v, norm, class, must) = directed_case(rng, k, is32);
+        rep.count(&format!("directed.{}", class));
+        let tbl = to_bits_list(&v, is32);
+        let tok = norm_token(norm, is32);
+        let nb: Option<u128> = if tok == "-" { None } else { parse_hex(&tok) };
+        check_fast_ctors::<F, Pr, P>(&tbl, nb, &tok, if must { Some(class) } else { None }, rng, rep);
     }
 }
 
@@ -1703,6 +1923,141 @@ where
     None
 }
 
+/// directed classes for the lookup constructor kinds (`…_fast` and `…_perfect`)
+fn oracle_directed_lookup<F, Pr, const P: usize>(rng: &mut Rng, rep: &mut Report)
+where
+    F: Fl + AsPrimitive<Pr>,
+    Pr: BitArray + AsPrimitive<usize> + Into<usize> + Into<f64>,
+    usize: AsPrimitive<Pr> + AsPrimitive<F>,
+    f64: AsPrimitive<Pr>,
+{
+    let is32 = F::NAME == "f32";
+    let p = P as u32;
+    for k in 0..N_DIRECTED {
+        let (v, norm, class, must) = directed_case(rng, k, is32);
+        let tbl = to_bits_list(&v, is32);
+        let tok = norm_token(norm, is32);
+        let probs: Vec<F> = tbl.iter().map(|&b| F::from_bits_u(b)).collect();
+        let normf = norm.map(|_| F::from_bits_u(parse_hex(&tok).unwrap()));
+        let n = probs.len();
+        let must = if must { Some(class) } else { None };
+        let line = |ctor: &str| format!("quant.fast {} {} {:x} {:x} {} {}", ctor, F::NAME, Pr::BITS, P, tok, show_list(tbl.clone()));
+        let tr = |x: (usize, Pr, Pr::NonZero)| -> Triple { (x.0 as u128, to_u128(x.1), to_u128(x.2.get())) };
+        let mut r1 = rng.fork();
+        report_ctor(rep, &line("lkc"), "lkc", must, guarded(|| {
+            match ContiguousLookupDecoderModel::<Pr, Vec<Pr>, Box<[Pr]>, P>::from_floating_point_probabilities_fast(&probs, normf) {
+                Err(()) => Ok(None),
+                Ok(m) => {
+                    let table: Vec<Triple> = m.symbol_table().map(tr).collect();
+                    let dec = |q: u128| tr(m.quantile_function(from_u128(q)));
+                    Ok(Some(views_check(p, n, None, Some(table), Some(&dec), &mut r1)?))
+                }
+            }
+        }));
+        let mut r2 = rng.fork();
+        report_ctor(rep, &line("lknc"), "lknc", must, guarded(|| {
+            match NonContiguousLookupDecoderModel::<usize, Pr, Vec<(Pr, usize)>, Box<[Pr]>, P>::from_symbols_and_floating_point_probabilities_fast(0..n, &probs, normf) {
+                Err(()) => Ok(None),
+                Ok(m) => {
+                    let table: Vec<Triple> = m.symbol_table().map(tr).collect();
+                    let dec = |q: u128| tr(m.quantile_function(from_u128(q)));
+                    Ok(Some(views_check(p, n, None, Some(table), Some(&dec), &mut r2)?))
+                }
+            }
+        }));
+        if norm.is_none() {
+            // the `…_perfect` lookup constructors take no normalisation
+            let pline = format!("quant.perfect {} {:x} {:x} {} -", F::NAME, Pr::BITS, P, show_list(tbl.clone()));
+            // (`…_perfect` sums in `f64`, so `f32` entries cannot overflow the sum)
+            let must = if is32 && class == "sum-overflows" { None } else { must };
+            let mut r3 = rng.fork();
+            report_ctor(rep, &pline, "lkc.perfect", must, guarded(|| {
+                match ContiguousLookupDecoderModel::<Pr, Vec<Pr>, Box<[Pr]>, P>::from_floating_point_probabilities_perfect(&probs) {
+                    Err(()) => Ok(None),
+                    Ok(m) => {
+                        let table: Vec<Triple> = m.symbol_table().map(tr).collect();
+                        let dec = |q: u128| tr(m.quantile_function(from_u128(q)));
+                        Ok(Some(views_check(p, n, None, Some(table), Some(&dec), &mut r3)?))
+                    }
+                }
+            }));
+            let mut r4 = rng.fork();
+            report_ctor(rep, &pline, "lknc.perfect", must, guarded(|| {
+                match NonContiguousLookupDecoderModel::<usize, Pr, Vec<(Pr, usize)>, Box<[Pr]>, P>::from_symbols_and_floating_point_probabilities_perfect(0..n, &probs) {
+                    Err(()) => Ok(None),
+                    Ok(m) => {
+                        let table: Vec<Triple> = m.symbol_table().map(tr).collect();
+                        let dec = |q: u128| tr(m.quantile_function(from_u128(q)));
+                        Ok(Some(views_check(p, n, None, Some(table), Some(&dec), &mut r4)?))
+                    }
+                }
+            }));
+        }
+    }
+}
+
+/// directed classes for the `…_perfect` constructor kinds (contiguous, non-contiguous encoder
+/// and decoder); classes that only vary the normalisation are run on their table
+fn oracle_directed_perfect<F, Pr, const P: usize>(rng: &mut Rng, rep: &mut Report) -> Option<Vec<u128>>
+where
+    F: Fl,
+    Pr: BitArray + Into<f64> + AsPrimitive<usize>,
+    f64: AsPrimitive<Pr>,
+    usize: AsPrimitive<Pr>,
+{
+    let is32 = F::NAME == "f32";
+    let p = P as u32;
+    for k in 0..N_DIRECTED {
+        let (v, norm, class, must) = directed_case(rng, k, is32);
+        // without a normalisation argument only the table classes are invalid arguments
+        // (`…_perfect` sums in `f64`, so `f32` entries cannot overflow the sum)
+        let must = if must && (norm.is_none() || class == "negative-entry+norm") && !(is32 && class == "sum-overflows") { Some(class) } else { None };
+        let tbl = to_bits_list(&v, is32);
+        let probs: Vec<F> = tbl.iter().map(|&b| F::from_bits_u(b)).collect();
+        let n = probs.len();
+        let pline = format!("quant.perfect {} {:x} {:x} {} -", F::NAME, Pr::BITS, P, show_list(tbl.clone()));
+        let tr = |x: (usize, Pr, Pr::NonZero)| -> Triple { (x.0 as u128, to_u128(x.1), to_u128(x.2.get())) };
+        let cp = |x: Option<(Pr, Pr::NonZero)>| -> Option<(u128, u128)> { x.map(|(c, p)| (to_u128(c), to_u128(p.get()))) };
+        let mut r1 = rng.fork();
+        report_ctor(rep, &pline, "cont.perfect", must, guarded(|| {
+            match ContiguousCategoricalEntropyModel::<Pr, Vec<Pr>, P>::from_floating_point_probabilities_perfect(&probs) {
+                Err(()) => Ok(None),
+                Ok(m) => {
+                    let table: Vec<Triple> = m.symbol_table().map(tr).collect();
+                    let enc = |s: usize| cp(m.left_cumulative_and_probability(s));
+                    let dec = |q: u128| tr(m.quantile_function(from_u128(q)));
+                    Ok(Some(views_check(p, n, Some(&enc), Some(table), Some(&dec), &mut r1)?))
+                }
+            }
+        }));
+        let mut r2 = rng.fork();
+        report_ctor(rep, &pline, "ncenc.perfect", must, guarded(|| {
+            match NonContiguousCategoricalEncoderModel::<usize, Pr, P>::from_symbols_and_floating_point_probabilities_perfect(0..n, &probs) {
+                Err(()) => Ok(None),
+                Ok(m) => {
+                    let enc = |s: usize| cp(m.left_cumulative_and_probability(s));
+                    Ok(Some(views_check(p, n, Some(&enc), None, None, &mut r2)?))
+                }
+            }
+        }));
+        let mut r3 = rng.fork();
+        report_ctor(rep, &pline, "ncdec.perfect", must, guarded(|| {
+            match NonContiguousCategoricalDecoderModel::<usize, Pr, Vec<(Pr, usize)>, P>::from_symbols_and_floating_point_probabilities_perfect(0..n, &probs) {
+                Err(()) => Ok(None),
+                Ok(m) => {
+                    let table: Vec<Triple> = m.symbol_table().map(tr).collect();
+                    let dec = |q: u128| tr(m.quantile_function(from_u128(q)));
+                    Ok(Some(views_check(p, n, None, Some(table), Some(&dec), &mut r3)?))
+                }
+            }
+        }));
+    }
+    None
+}
+
+fp_combos!(dispatch_oracle_directed_fast, oracle_directed_fast, (rng: &mut Rng, rep: &mut Report) (rng, rep) -> ());
+lookup_combos!(dispatch_oracle_directed_lookup, oracle_directed_lookup, (rng: &mut Rng, rep: &mut Report) (rng, rep) -> ());
+perfect_combos!(dispatch_oracle_directed_perfect, oracle_directed_perfect, (rng: &mut Rng, rep: &mut Report) (rng, rep) -> Option<Vec<u128>>);
 fp_combos!(dispatch_oracle_fast, oracle_fast_one, (rng: &mut Rng, rep: &mut Report) (rng, rep) -> ());
 lookup_combos!(dispatch_oracle_lookup, oracle_lookup_one, (rng: &mut Rng, rep: &mut Report) (rng, rep) -> ());
 perfect_combos!(dispatch_oracle_perfect, oracle_perfect_one, (rng: &mut Rng, rep: &mut Report) (rng, rep) -> Option<Vec<u128>>);
@@ -2170,6 +2525,26 @@ fn oracle_diag(rng: &mut Rng, rep: &mut Report) {
 pub fn oracle(rng: &mut Rng, tier: &str, rep: &mut Report) {
     let k = if tier == "thorough" { 20 } else { 1 };
     let fnames = ["f32", "f64"];
+    // directed invalid-argument classes: every constructor kind × float type × (B, P)
+    for _ in 0..k {
+        for f in fnames {
+            for (b, ps) in FP_BP {
+                for p in ps.iter() {
+                    dispatch_oracle_directed_fast(f, *b, *p, rng, rep);
+                }
+            }
+            for (b, ps) in LOOKUP_BP {
+                for p in ps.iter() {
+                    dispatch_oracle_directed_lookup(f, *b, *p, rng, rep);
+                }
+            }
+            for (b, ps) in PERFECT_BP {
+                for p in ps.iter() {
+                    dispatch_oracle_directed_perfect(f, *b, *p, rng, rep);
+                }
+            }
+        }
+    }
     for _ in 0..3000 * k {
         let (b, p) = pick_bp(rng, FP_BP);
         let f = *rng.pick(&fnames);
